@@ -17,6 +17,9 @@ def special_models():
     out.append(b + [N("SERVER @s1 // only annotation"), N("SERVER @s2", [N('BaseUrl "https://x/"')])])
     out.append(b + [N('GET /q', [N('Query noFormat "a=1"\n{"a": 1}'), N("200 any")])])
     out.append(b + [N("POST /two", [N("Request", [N('Headers\n{"h": "v"}'), N("Body regex\n/ab/")]), N("201 @t // created"), N("400 any // bad")])])
+    # a URL-level Tags directive ends with its URL block: the method written after the block has its own tag
+    out.append(b + [N("URL /pets", [N("Tags @dogs"), N("GET", [N("200 any")])]), N("GET /owners", [N("200 any")]),
+                    N("URL /people", [N("Tags @cats"), N("POST", [N("200 any")])]), N("DELETE /visitors/{id}", [N("200 any")])])
     return out
 
 
